@@ -118,22 +118,53 @@ var biomeShapes = []biomeShape{
 	{"ge9:all", "ge9", "fill", 0},
 }
 
-func shapeIndex(name string, isBlock bool) int {
-	if isBlock {
-		for i, s := range blockShapes {
-			if s.Name == name {
-				return i
-			}
-		}
-	} else {
-		for i, s := range biomeShapes {
-			if s.Name == name {
-				return i
-			}
+// Shapes outside the main cross product: the remaining palette widths (6 and 7 bits for block
+// states, 2 bits for biomes) on both sides of every width boundary. They are used by the width
+// sweep and by the history families (history.go), never rotated over sections.
+var extraBlockShapes = []blockShape{
+	{"17-256:d32", "17-256", "fill", 32},
+	{"17-256:d33", "17-256", "fill", 33},
+	{"17-256:d64", "17-256", "fill", 64},
+	{"17-256:d65", "17-256", "fill", 65},
+	{"17-256:d128", "17-256", "fill", 128},
+	{"17-256:d129", "17-256", "fill", 129},
+}
+
+var extraBiomeShapes = []biomeShape{
+	{"2-8:d3", "2-8", "fill", 3},
+	{"2-8:d4", "2-8", "fill", 4},
+	{"2-8:d5", "2-8", "fill", 5},
+}
+
+// findBlockShape returns the shape and its index in the rotation list (-1: an extra shape).
+func findBlockShape(name string) (blockShape, int) {
+	for i, s := range blockShapes {
+		if s.Name == name {
+			return s, i
 		}
 	}
-	engine.HarnessError("unknown shape %q", name)
-	return -1
+	for _, s := range extraBlockShapes {
+		if s.Name == name {
+			return s, -1
+		}
+	}
+	engine.HarnessError("unknown block shape %q", name)
+	return blockShape{}, -1
+}
+
+func findBiomeShape(name string) (biomeShape, int) {
+	for i, s := range biomeShapes {
+		if s.Name == name {
+			return s, i
+		}
+	}
+	for _, s := range extraBiomeShapes {
+		if s.Name == name {
+			return s, -1
+		}
+	}
+	engine.HarnessError("unknown biome shape %q", name)
+	return biomeShape{}, -1
 }
 
 var hmNames = [6]string{"WORLD_SURFACE_WG", "WORLD_SURFACE", "OCEAN_FLOOR_WG", "OCEAN_FLOOR", "MOTION_BLOCKING", "MOTION_BLOCKING_NO_LEAVES"}
@@ -202,23 +233,30 @@ type built struct {
 // blockPool returns the distinct ids section s draws from: air first, then alternately ids
 // from the top of the registry (15-bit ids) and from a low window, with cave_air / void_air
 // early so that every multi-valued section holds all three kinds of air.
-func blockPool(s, d int) []int {
+//
+// salt (history families only; 0 in the main product) moves both windows by 211*salt ids, so
+// that chunks of one history hold different non-air states at the same positions.
+func blockPool(s, d, salt int) []int {
 	seen := map[int]bool{}
 	out := make([]int, 0, d)
 	add := func(v int) {
+		if salt != 0 {
+			v = ((v % nStates) + nStates) % nStates
+		}
 		if len(out) < d && v >= 0 && v < nStates && !seen[v] {
 			seen[v] = true
 			out = append(out, v)
 		}
 	}
+	off := 211 * salt
 	add(idAir)
-	add(nStates - 1 - 500*s)
+	add(nStates - 1 - 500*s - off)
 	add(idCaveAir)
-	add(idStone + 500*s)
+	add(idStone + 500*s + off)
 	add(idVoidAir)
 	for j := 1; len(out) < d; j++ {
-		add(nStates - 1 - 500*s - j)
-		add(500*s + j)
+		add(nStates - 1 - 500*s - off - j)
+		add(500*s + off + j)
 		if j > 2*nStates {
 			engine.HarnessError("block pool exhausted")
 		}
@@ -227,6 +265,9 @@ func blockPool(s, d int) []int {
 }
 
 func singleBlockValue(s int) int {
+	if s >= 100 { // salted (history families)
+		return (idStone + 211*(s/100) + s%100) % nStates
+	}
 	switch s % 4 {
 	case 0:
 		return idStone
@@ -282,7 +323,15 @@ type Case struct {
 	Status  string `json:"status"`
 	Extra   string `json:"extra,omitempty"` // "" | nil-heightmaps
 	Ordinal int    `json:"ordinal,omitempty"`
+	Salt    int    `json:"salt,omitempty"` // history families: moves the value pools (see blockPool)
 	leanNet bool   // enumerator only: status is not the first of its alphabet (see network())
+
+	// history families (history.go)
+	Seq     []int    `json:"menu_sequence,omitempty"` // nethist / savedst: indices into the family's menu
+	Src     int      `json:"source,omitempty"`        // srchist: index into the source menu
+	Steps   []string `json:"steps,omitempty"`         // srchist: conversions and mutations in order
+	Prefill string   `json:"prefilled_by,omitempty"`  // savedst: to-save | load
+	Comp    string   `json:"compression,omitempty"`   // twolive: none | gzip | zlib
 
 	// counter
 	Start string `json:"start,omitempty"` // fresh | wire | save-stone | save-cave_air
@@ -355,6 +404,8 @@ func blockEntities(cfg string) []modelBE {
 		return []modelBE{a("nested"), b("empty")}
 	case "end":
 		return []modelBE{a("end")}
+	case "three": // more entities than any other configuration (history families)
+		return []modelBE{a("nested"), mkBE("empty", 0x37, 100, 1), b("nested")}
 	}
 	engine.HarnessError("unknown block entity configuration %q", cfg)
 	return nil
@@ -384,12 +435,15 @@ func buildInto(cs *Case, b *built) {
 	c := level.EmptyChunk(cs.Secs)
 	b.c = c
 	m := b.m
-	bi := shapeIndex(cs.Blocks, true)
-	oi := shapeIndex(cs.Biomes, false)
+	sh0, bi := findBlockShape(cs.Blocks)
+	bs0, oi := findBiomeShape(cs.Biomes)
+	if cs.Mix && (bi < 0 || oi < 0) {
+		engine.HarnessError("shapes %q / %q are not part of the rotation", cs.Blocks, cs.Biomes)
+	}
 	for s := 0; s < cs.Secs; s++ {
 		ms := &modelSection{}
 		m.secs = append(m.secs, ms)
-		sh, bs := blockShapes[bi], biomeShapes[oi]
+		sh, bs := sh0, bs0
 		if cs.Mix {
 			sh = blockShapes[(bi+s)%len(blockShapes)]
 			bs = biomeShapes[(oi+s)%len(biomeShapes)]
@@ -401,7 +455,7 @@ func buildInto(cs *Case, b *built) {
 		case "untouched":
 			// EmptyChunk's section: single value air
 		case "ctor":
-			v := singleBlockValue(s)
+			v := singleBlockValue(s + 100*cs.Salt)
 			sec.States = level.NewStatesPaletteContainer(16*16*16, level.BlocksState(v))
 			for i := range ms.blocks {
 				ms.blocks[i] = v
@@ -410,7 +464,7 @@ func buildInto(cs *Case, b *built) {
 				sec.BlockCount = 4096 // a caller who installs a container states its count
 			}
 		case "setall":
-			v := singleBlockValue(s + 1)
+			v := singleBlockValue(s + 1 + 100*cs.Salt)
 			for k := 0; k < 4096; k++ {
 				p := permBlock(k)
 				sec.SetBlock(p, level.BlocksState(v))
@@ -418,7 +472,7 @@ func buildInto(cs *Case, b *built) {
 			}
 			b.setOps += 4096
 		case "fill":
-			pool := blockPool(s, sh.D)
+			pool := blockPool(s, sh.D, cs.Salt)
 			for k := 0; k < 4096; k++ {
 				p := permBlock(k)
 				v := pool[k%len(pool)]
@@ -443,7 +497,7 @@ func buildInto(cs *Case, b *built) {
 		switch bs.How {
 		case "untouched":
 		case "ctor":
-			v := biomePool(s, 1)[0]
+			v := biomePool(s+5*cs.Salt, 1)[0]
 			if v == 0 {
 				v = 1
 			}
@@ -452,7 +506,7 @@ func buildInto(cs *Case, b *built) {
 				ms.biomes[i] = v
 			}
 		case "fill":
-			pool := biomePool(s, bs.D)
+			pool := biomePool(s+5*cs.Salt, bs.D)
 			for k := 0; k < 64; k++ {
 				p := permBiome(k)
 				v := pool[k%len(pool)]
@@ -498,7 +552,7 @@ func buildInto(cs *Case, b *built) {
 			case "max":
 				v = mask
 			case "pattern":
-				v = (k*7 + i*11 + i + 1) % (mask + 1) // a different sequence for every map
+				v = (k*7 + i*11 + i + 1 + 13*cs.Salt) % (mask + 1) // a different sequence for every map
 			default:
 				engine.HarnessError("unknown height map class %q", cs.HM)
 			}
